@@ -193,7 +193,7 @@ def run(ctx):
         items.append(("cat", sid, tree))
     for sid, src, exp, _ in PINNED:
         items.append(("pin", sid, eo.PRELUDE + src, exp))
-    nrand = ctx.n(4000, 45000)
+    nrand = ctx.n(3000, 45000)
     for i in range(nrand):
         items.append(("rand", "%d/%d" % (ctx.seed, i)))
     results = core.pmap(work, items, chunksize=8)
@@ -251,15 +251,16 @@ def run(ctx):
             out.violations.append(core.Violation(sig, what, prob))
     out.samples = samples_shape + samples_rand
     agg["rejected_examples"] = rejected_examples
-    agg["avoidance_rules"] = {"index_result_as_operand": "an index expression is never generated directly as an element "
-                              "of a list literal, as the operand of unary minus / `!`, nor returned directly from a helper "
-                              "(C02 finding: an index expression yields the element pointer); pinned by the catalogue "
-                              "cases pin:neg_of_index / pin:not_of_index; %d enumerated shapes skipped for it" % avoided.get("index_result_as_operand", 0)}
+    agg["avoidance_rules"] = {"index_result_under_unary": "an index / map-index expression (or a call of a helper that "
+                              "returns one directly) is never generated as the operand of unary minus or `!`: the "
+                              "element pointer is not dereferenced by `neg` / `not`; pinned by pin:neg_of_index / "
+                              "pin:not_of_index.  Lifted since the repairs in /repo: index expressions as list-literal "
+                              "elements, as operands of && / ||, and as directly returned values are generated."}
     agg["model_mode"] = MODE
     out.coverage.update(agg)
     out.exhaustive = True
     out.rule = ("deterministic part: every expression shape of depth <= 3 (leaf = depth 1) over the reduced operator "
-                "set {-, <, f2(a,b), (mk(a)).m1(b), (ls2(a,b))[t%%2], (o) or i, &&, ||, (map{a:b})[t-c]} with leaves "
+                "set {-, <, f2(a,b), (mk(a)).m1(b), (ls2(a,b))[t%%2], (lb2(p,q))[t%%2], (o) or i, &&, ||, (map{a:b})[t-c]} with leaves "
                 "{t, ra (recursive helper), tb, topt}, plus root-only [a,b] / map{a:b}; one program per shape containing "
                 "every valuation (tb value, topt presence, map-key hit/miss) as its own section; arity catalogue f0..f4, "
                 "(mk).m0..m4, ov.m0..m4 x argument kinds {t, t-t, ra, rb}.  exhaustive=true refers to this part.  "
